@@ -8,7 +8,11 @@
 //	                     instance of the package-global cache, selected through the
 //	                     verif hook) joined by a queueing streamer; originations,
 //	                     delivery order, losses and window expiries come from the
-//	                     scenario (a TLC behaviour of Multicast.tla)
+//	                     scenario (a TLC behaviour of Multicast.tla); a receive handler
+//	                     runs in one step (deliver) or in two (begin: the handler runs
+//	                     until its first outgoing stream, where the streamer holds it up;
+//	                     finish: it is let go), so that the handlers of two copies of a
+//	                     message at one node overlap
 //
 // The driver holds no oracle; MulticastTrace.tla judges the log.
 package main
@@ -345,6 +349,19 @@ func (c copyMsg) ev() kit.Ev {
 	return kit.Ev{"origin": c.Origin, "serial": c.Serial, "from": c.From, "to": c.To, "relay": c.Relay}
 }
 
+// running is a receive handler started by a "begin" step: it is held up at its first
+// outgoing stream (a slow network) until the scenario's "finish" step.
+type running struct {
+	c        copyMsg
+	n        *svcNode
+	blocked  chan struct{} // closed when the handler reaches its first outgoing stream
+	release  chan struct{} // closed by finish
+	done     chan struct{}
+	herr     error
+	panicked bool
+	pmsg     string
+}
+
 type floodRun struct {
 	book  *routex.Book
 	net   *routex.Net
@@ -357,6 +374,143 @@ type floodRun struct {
 	deliv int
 	norig int
 	nwin  int
+
+	hmu    sync.Mutex
+	byGo   map[uint64]*running // handler goroutine -> its record
+	active []*running          // begun and not finished, in begin order
+}
+
+// goid is the number of the calling goroutine (only used to tell which held-up handler opens a stream).
+func goid() uint64 {
+	var buf [64]byte
+	b := buf[:runtime.Stack(buf[:], false)]
+	b = bytes.TrimPrefix(b, []byte("goroutine "))
+	var id uint64
+	for _, ch := range b {
+		if ch < '0' || ch > '9' {
+			break
+		}
+		id = id*10 + uint64(ch-'0')
+	}
+	return id
+}
+
+// gate is the streamer's hook: a handler started by "begin" waits here, before its first outgoing
+// stream is queued, until "finish"; everybody else passes.
+func (r *floodRun) gate(from int, to boson.Address, stream string) {
+	r.hmu.Lock()
+	h := r.byGo[goid()]
+	r.hmu.Unlock()
+	if h == nil {
+		return
+	}
+	select {
+	case <-h.release:
+		return
+	default:
+	}
+	select {
+	case <-h.blocked:
+	default:
+		close(h.blocked)
+	}
+	<-h.release
+}
+
+// begin starts the receive handler of a queued copy and returns when it has ended or is held up.
+func (r *floodRun) begin(s *routex.Sent, c copyMsg) (kit.Ev, error) {
+	ev := kit.Ev{"op": "begin", "kind": "flood", "m": c.ev(), "forced": true, "herr": "", "panicked": false}
+	r.net.Take(s)
+	r.deliv++
+	n, ok := r.nodes[c.To]
+	if !ok || c.Bad != "" {
+		ev["herr"] = "undeliverable " + c.Bad
+		ev["blocked"] = false
+		r.observe(ev, nil)
+		return ev, nil
+	}
+	multicast.VerifUseCache(n.i)
+	hf := routex.Handler(n.svc.Protocol(), streamMulticast)
+	h := &running{c: c, n: n, blocked: make(chan struct{}), release: make(chan struct{}), done: make(chan struct{})}
+	data := s.Bytes()
+	go func() {
+		defer close(h.done)
+		id := goid()
+		r.hmu.Lock()
+		r.byGo[id] = h
+		r.hmu.Unlock()
+		defer func() {
+			r.hmu.Lock()
+			delete(r.byGo, id)
+			r.hmu.Unlock()
+		}()
+		h.panicked, h.pmsg = kit.Guard(func() {
+			h.herr = hf(context.Background(), p2p.Peer{Address: r.book.Addr(c.From), Mode: fullMode}, routex.NewIncoming(data))
+		})
+	}()
+	select {
+	case <-h.done:
+		ev["blocked"] = false
+		ev["panicked"] = h.panicked
+		if h.panicked {
+			ev["panic"] = h.pmsg
+		}
+		if h.herr != nil {
+			ev["herr"] = h.herr.Error()
+		}
+	case <-h.blocked:
+		ev["blocked"] = true
+		r.active = append(r.active, h)
+	case <-time.After(20 * time.Second):
+		return nil, fmt.Errorf("begin: the handler of %+v neither ended nor reached an outgoing stream", c)
+	}
+	r.observe(ev, n)
+	return ev, nil
+}
+
+// finish lets a held-up handler go on and waits for its end (ran=false: it had ended in its begin step).
+func (r *floodRun) finish(h *running, c copyMsg, forced bool) (kit.Ev, error) {
+	ev := kit.Ev{"op": "finish", "kind": "flood", "m": c.ev(), "forced": forced, "herr": "", "panicked": false, "ran": h != nil}
+	if h == nil {
+		if n, ok := r.nodes[c.To]; ok {
+			r.observe(ev, n)
+		} else {
+			r.observe(ev, nil)
+		}
+		return ev, nil
+	}
+	for i, x := range r.active {
+		if x == h {
+			r.active = append(r.active[:i], r.active[i+1:]...)
+			break
+		}
+	}
+	multicast.VerifUseCache(h.n.i)
+	close(h.release)
+	select {
+	case <-h.done:
+	case <-time.After(20 * time.Second):
+		return nil, fmt.Errorf("finish: the handler of %+v does not end", c)
+	}
+	ev["panicked"] = h.panicked
+	if h.panicked {
+		ev["panic"] = h.pmsg
+	}
+	if h.herr != nil {
+		ev["herr"] = h.herr.Error()
+	}
+	r.observe(ev, h.n)
+	return ev, nil
+}
+
+func (r *floodRun) findActive(want map[string]interface{}) *running {
+	for _, h := range r.active {
+		c := h.c
+		if c.Origin == kit.Int(want, "origin") && c.Serial == kit.Int(want, "serial") && c.From == kit.Int(want, "from") && c.To == kit.Int(want, "to") {
+			return h
+		}
+	}
+	return nil
 }
 
 func (r *floodRun) decode(s *routex.Sent) copyMsg {
@@ -442,7 +596,13 @@ func (r *floodRun) find(want map[string]interface{}) (*routex.Sent, copyMsg, boo
 
 func runFlood(sc kit.Scenario, out *kit.Out, logger logging.Logger) error {
 	multicast.VerifResetCaches()
-	r := &floodRun{book: routex.NewBook(), net: routex.NewNet(), nodes: map[int]*svcNode{}, gid: gidOf(1)}
+	r := &floodRun{book: routex.NewBook(), net: routex.NewNet(), nodes: map[int]*svcNode{}, gid: gidOf(1), byGo: map[uint64]*running{}}
+	r.net.Gate = r.gate
+	defer func() { // never leave a handler goroutine parked (error paths)
+		for _, h := range r.active {
+			close(h.release)
+		}
+	}()
 	r.order = kit.IntList(sc.Par, "nodes")
 	sort.Ints(r.order)
 	joined := map[int]bool{}
@@ -552,6 +712,25 @@ func runFlood(sc kit.Scenario, out *kit.Out, logger logging.Logger) error {
 			} else {
 				ev = r.deliver(s, c, true)
 			}
+		case "begin":
+			want, _ := op["m"].(map[string]interface{})
+			s, c, ok := r.find(want)
+			if !ok {
+				ev = kit.Ev{"op": "miss", "kind": "flood", "what": "begin", "m": want, "panicked": false, "herr": ""}
+				r.observe(ev, nil)
+			} else {
+				var err error
+				if ev, err = r.begin(s, c); err != nil {
+					return err
+				}
+			}
+		case "finish":
+			want, _ := op["m"].(map[string]interface{})
+			c := copyMsg{Origin: kit.Int(want, "origin"), Serial: kit.Int(want, "serial"), From: kit.Int(want, "from"), To: kit.Int(want, "to")}
+			var err error
+			if ev, err = r.finish(r.findActive(want), c, true); err != nil {
+				return err
+			}
 		case "expire":
 			n := r.nodes[kit.Int(op, "n")]
 			if n == nil {
@@ -564,6 +743,15 @@ func runFlood(sc kit.Scenario, out *kit.Out, logger logging.Logger) error {
 			r.observe(ev, n)
 		default:
 			return fmt.Errorf("flood: unknown op %v", op["op"])
+		}
+		out.Emit(ev)
+	}
+	// handlers still held up are let go (oldest first), then whatever is queued is delivered
+	for len(r.active) > 0 {
+		h := r.active[0]
+		ev, err := r.finish(h, h.c, false)
+		if err != nil {
+			return err
 		}
 		out.Emit(ev)
 	}
